@@ -217,13 +217,13 @@ def build(tabs, cls, dim, shape, ids, route="array", neg=(), scale=None):
         big = np.zeros(data.shape[:-1] + (2 * data.shape[-1] + 1,))
         big[..., 1::2] = data[::-1]
         data = big[1::2][::-1] if data.ndim == 1 else big[::-1, ..., 1::2]
-    if route in ("array", "negarray", "negrow", "intdata", "fortran", "strided") or (route == "list" and len(shape) == 0):
+    if route in ("array", "negarray", "negrow", "intdata", "fortran", "strided") or (route in ("list", "iterator") and len(shape) == 0):
         return C(data), [data]
     if route == "object":
         return C(C(data)), [data]
-    if route == "list":
+    if route in ("list", "iterator"):
         subs = [C(data[i]) for i in range(shape[0])]
-        return C(subs), [data]
+        return C(iter(subs) if route == "iterator" else subs), [data]
     raise core.MachineryFailure("unknown construction route %r" % (route,))
 
 
